@@ -52,16 +52,21 @@ def sortById (l : List (Id × Row)) : List (Id × Row) := l.foldr (fun p acc => 
 /-- cell-wise `new.combine_first(old)`: new unless NaN -/
 def combineRow (new old : Row) : Row := List.zipWith (fun n o => match n with | some x => some x | none => o) new old
 
+/-- `combine_first`, rows of ids that were present: new cells unless NaN -/
+def mergeCell (ids' : List Id) (rows : List Row) (i : Id) (r : Row) : Row :=
+  match lookupRow ids' rows i with
+  | some n => combineRow n r
+  | none => r
+def mergedOld (ids' : List Id) (rows : List Row) (olds : List (Id × Row)) : List (Id × Row) :=
+  olds.map fun p => (p.1, mergeCell ids' rows p.1 p.2)
+/-- … and the rows of ids that were not present -/
+def newOnly (ids : List Id) (news : List (Id × Row)) : List (Id × Row) := news.filter fun p => !ids.contains p.1
+
 /-- `update(ids', rows, allow_overwrite=True)` -/
 def updateOverwrite (cfg : Cfg) (s : State) (ids' : List Id) (rows : List Row) : Except Err State :=
   if ids'.length ≠ rows.length then .error .valueError
   else
-    let olds := s.ids.zip s.frame
-    let merged : List (Id × Row) :=
-      (olds.map fun (i, r) => match lookupRow ids' rows i with
-                              | some n => (i, combineRow n r)
-                              | none => (i, r))
-      ++ ((ids'.zip rows).filter fun (i, _) => !s.ids.contains i)
+    let merged : List (Id × Row) := mergedOld ids' rows (s.ids.zip s.frame) ++ newOnly s.ids (ids'.zip rows)
     -- pandas: the union of two *identical* indexes is returned as it is; any other union is sorted
     let sorted := if ids' = s.ids then merged else sortById merged
     let ids2 := sorted.map Prod.fst
